@@ -54,6 +54,13 @@ pub broadcast proof fn lemma_max_is_earliest(m: Multiset<TimeoutData>, x: Timeou
 }
 //@ endregion
 
+//@ region wheel_witnesses props=C05,C07
+// must-call witnesses for the two operations a Timer performs on the SHARED wheel (which it only ever sees through a
+// RefCell borrow, i.e. as an arbitrary value): produced by the postconditions of insert / cancel -- opaque, so a caller
+// can establish them only by making the call.
+#[verifier::opaque] pub closed spec fn w_wheel_inserted(counter: u32, deadline: Instant, token: Token) -> bool { true }
+#[verifier::opaque] pub closed spec fn w_wheel_cancelled(counter: u32) -> bool { true }
+//@ endregion
 //@ open src/sources/timer.rs / impl TimerWheel
 //@ item src/sources/timer.rs / impl TimerWheel / fn new props=C05 ret=r
 //@ spec
@@ -67,8 +74,9 @@ pub broadcast proof fn lemma_max_is_earliest(m: Multiset<TimeoutData>, x: Timeou
             r == old(self).next_counter(),
             final(self).next_counter() == old(self).next_counter() + 1,
             final(self)@ == old(self)@.insert(TimeoutData::mk(deadline, token, r as int)),
+            w_wheel_inserted(r, deadline, token),
 //@ entry
-        proof { broadcast use TimeoutData::lemma_mk; }
+        proof { broadcast use TimeoutData::lemma_mk; reveal(w_wheel_inserted); }
 //@ enditem
 //@ item src/sources/timer.rs / impl TimerWheel / fn insert_reuse props=C05
 //@ spec
@@ -80,7 +88,7 @@ pub broadcast proof fn lemma_max_is_earliest(m: Multiset<TimeoutData>, x: Timeou
 //@ enditem
 //@ item src/sources/timer.rs / impl TimerWheel / fn cancel props=C05,C12
 //@ entry
-        proof { broadcast use lemma_max_is_earliest; }
+        proof { broadcast use lemma_max_is_earliest; reveal(w_wheel_cancelled); }
 //@ exit
         proof {
             let p = |x: TimeoutData| x.ctr() != counter;
@@ -88,6 +96,7 @@ pub broadcast proof fn lemma_max_is_earliest(m: Multiset<TimeoutData>, x: Timeou
         }
 //@ spec
         ensures
+            w_wheel_cancelled(counter),
             // entries of other timers are never touched, nothing is added
             forall|x: TimeoutData| x.ctr() != counter ==> #[trigger] final(self)@.count(x) == old(self)@.count(x),
             forall|x: TimeoutData| #[trigger] final(self)@.count(x) <= old(self)@.count(x),
